@@ -20,6 +20,8 @@ pub struct MemRun {
     pub handle_calls: usize,
     /// reply bytes produced by each handle() call
     pub out_per_call: Vec<usize>,
+    /// size of the input of the handle() call during which the connection became upgraded
+    pub upgrade_input_len: Option<usize>,
 }
 
 #[derive(Clone, Copy, Debug, PartialEq)]
@@ -27,6 +29,8 @@ pub struct Caller {
     /// re-feed whatever handle() left unread in the reader it was given (a caller that owns a
     /// persistent reader); false = the reference callers, which only use the returned tail
     pub keep_reader: bool,
+    /// after the last chunk, hand bytes still held for an upgraded connection to the handler
+    pub flush_upgraded: bool,
 }
 
 pub fn run_chunks(svc: &VarlinkService, chunks: &[&[u8]], caller: Caller, log: Option<Log>) -> MemRun {
@@ -39,6 +43,7 @@ pub fn run_chunks(svc: &VarlinkService, chunks: &[&[u8]], caller: Caller, log: O
         left_in_reader: 0,
         handle_calls: 0,
         out_per_call: Vec::new(),
+        upgrade_input_len: None,
     };
     let mut pending: Vec<u8> = Vec::new();
     let mut iface: Option<String> = None;
@@ -65,9 +70,40 @@ pub fn run_chunks(svc: &VarlinkService, chunks: &[&[u8]], caller: Caller, log: O
                 break;
             }
             (Ok(Ok((tail, i))), left) => {
+                if iface.is_none() && i.is_some() {
+                    run.upgrade_input_len = Some(pending.len());
+                }
                 iface = i;
                 let rest: Vec<u8> = pending[pending.len() - left..].to_vec();
                 run.left_in_reader += left;
+                pending = tail;
+                if caller.keep_reader {
+                    pending.extend(rest);
+                }
+            }
+        }
+    }
+    // An upgraded connection whose caller still holds returned bytes hands them to the
+    // upgraded handler first (examples/ping: `buffer.chain(br)`), so flush them once.
+    if caller.flush_upgraded && iface.is_some() && !pending.is_empty() && run.closed.is_none() && run.panicked.is_none() {
+        let before = run.out.len();
+        let res = {
+            let mut rd: &[u8] = &pending[..];
+            let mut w = LogWriter { out: &mut run.out, log: log.clone() };
+            let r = catch_unwind(AssertUnwindSafe(|| svc.handle(&mut rd, &mut w, iface.clone())));
+            (r, rd.len())
+        };
+        run.handle_calls += 1;
+        run.out_per_call.push(run.out.len() - before);
+        match res {
+            (Err(_), _) => run.panicked = Some("panic in flush".into()),
+            (Ok(Err(e)), _) => {
+                run.closed = Some(format!("{:?}", e.kind()));
+                pending.clear();
+            }
+            (Ok(Ok((tail, i))), left) => {
+                iface = i;
+                let rest: Vec<u8> = pending[pending.len() - left..].to_vec();
                 pending = tail;
                 if caller.keep_reader {
                     pending.extend(rest);
@@ -81,7 +117,7 @@ pub fn run_chunks(svc: &VarlinkService, chunks: &[&[u8]], caller: Caller, log: O
 }
 
 pub fn run_whole(svc: &VarlinkService, stream: &[u8], log: Option<Log>) -> MemRun {
-    run_chunks(svc, &[stream], Caller { keep_reader: true }, log)
+    run_chunks(svc, &[stream], Caller { keep_reader: true, flush_upgraded: true }, log)
 }
 
 /// Cut `s` at the given sorted positions.
